@@ -446,10 +446,12 @@ class Ctx(object):
                 raise
 
     def feasible(self, extra):
+        # quantified hypotheses are left out (the check only prunes paths; a weaker pc explores a superset)
         s = z3.Solver()
         s.set("timeout", self.explorer.feas_timeout_ms)
         for p in self.pc:
-            s.add(p)
+            if not _has_quantifier(p):
+                s.add(p)
         s.add(extra)
         r = s.check()
         return r != z3.unsat
@@ -584,6 +586,27 @@ class Ctx(object):
                 self.assume(z3.And(v.term > 0, v.term < self.wm_now()))
             if v.ty.base.kind == "list":
                 self.assume(self.list_len(v) >= 0)
+
+
+_QCACHE = {}
+
+
+def _has_quantifier(f):
+    i = f.get_id()
+    if i in _QCACHE:
+        return _QCACHE[i]
+    stack, seen, r = [f], set(), False
+    while stack:
+        e = stack.pop()
+        if e.get_id() in seen:
+            continue
+        seen.add(e.get_id())
+        if z3.is_quantifier(e):
+            r = True
+            break
+        stack.extend(e.children())
+    _QCACHE[i] = r
+    return r
 
 
 def _has_var(t):
